@@ -283,13 +283,21 @@ func usedLen(b []byte) int {
 
 // mutateMeta edits the JSON metadata record structurally or textually.
 func mutateMeta(fs *simfs.FS, m Mut) bool {
-	raw := fs.MetaRaw()
+	out, ok := MutateMetaRaw(fs.MetaRaw(), m)
+	if ok {
+		fs.SetMetaRaw(out)
+	}
+	return ok
+}
+
+// MutateMetaRaw applies a metadata mutation to the raw JSON record.
+func MutateMetaRaw(raw []byte, m Mut) ([]byte, bool) {
 	if len(raw) == 0 {
-		return false
+		return nil, false
 	}
 	var st types.PersistentState
 	if json.Unmarshal(raw, &st) != nil {
-		return false
+		return nil, false
 	}
 	n := len(st.Segments)
 	pick := func() int {
@@ -382,14 +390,13 @@ func mutateMeta(fs *simfs.FS, m Mut) bool {
 		case "textgarbage":
 			out = kit.Fill(len(out), byte(m.Val), 1, 1)
 		default:
-			return false
+			return nil, false
 		}
 	}
 	if string(out) == string(raw) {
-		return false
+		return nil, false
 	}
-	fs.SetMetaRaw(out)
-	return true
+	return out, true
 }
 
 // allocOf runs fn and returns the bytes allocated meanwhile (single goroutine).
